@@ -14,6 +14,8 @@ import (
 type c06 struct {
 	base
 	afterDisable bool // this case switches the engine-wide sandbox mode off again after EnableSandbox
+	bothForms    bool // the forbidden name is registered as a filter and as a function; the policy allows the other form
+	bothKind     string
 }
 
 func init() {
@@ -271,6 +273,15 @@ func (p *c06) engine(spy *c06Spy, pol twig.SecurityPolicy, forbidName string) fu
 		for _, n := range []string{"g1", "g2", "okg", "range", "max", "cycle"} {
 			e.AddFunction(n, mkG(n))
 		}
+		if p.bothForms {
+			e.AddFilter(forbidName, mkF("twin-of-"+forbidName))
+			e.AddFunction(forbidName, mkG("twin-of-"+forbidName))
+			if p.bothKind == "filter" {
+				e.AddFilter(forbidName, mkF(forbidName))
+			} else {
+				e.AddFunction(forbidName, mkG(forbidName))
+			}
+		}
 		e.EnableSandbox(pol)
 		if p.afterDisable {
 			// the engine-wide sandbox mode is switched off again; the policy stays, and an include that asks for the sandbox
@@ -303,6 +314,10 @@ func (p *c06) Run(rec *core.Recorder, seed uint64, idx int, tier string) {
 		rec.Count("cases-after-DisableSandbox", 1)
 	}
 	kind := []string{"filter", "function"}[kindI]
+	p.bothForms, p.bothKind = idx >= nGrid && polI < 2 && core.Hash64(fmt.Sprint(seed, idx), "both-forms")%3 == 0, kind
+	if p.bothForms {
+		rec.Count("cases-with-the-name-in-both-namespaces", 1)
+	}
 	// forbidden name per policy
 	var name string
 	switch polI {
@@ -368,6 +383,15 @@ func (p *c06) Run(rec *core.Recorder, seed uint64, idx int, tier string) {
 		}
 		for k, v := range allowedG {
 			g[k] = v
+		}
+		if p.bothForms {
+			// the forbidden name also exists in the other namespace, where the policy allows it: a filter named like an
+			// allowed function is still a forbidden filter
+			if kind == "filter" {
+				g[name] = true
+			} else {
+				f[name] = true
+			}
 		}
 		if forbid {
 			// the name is taken off the list, or (one case in three) stays on it with the value false: both say "not allowed"
